@@ -15,6 +15,7 @@ import (
 type ctxModel struct {
 	lib      string // this context's sys.path directory
 	marker   string // initial shm.val of the module found there
+	tag      string // CT: the last character of the context's first sys.path entry
 	vals     map[string]string
 	path     []string
 	argv     []string
@@ -26,7 +27,11 @@ type ctxModel struct {
 }
 
 func newCtxModel(lib, marker string) *ctxModel {
-	return &ctxModel{lib: lib, marker: marker, vals: map[string]string{}, path: []string{lib, "/simcwd/common"}, argv: []string{"sim"}, shmDict: map[string]bool{}}
+	tag := ""
+	if lib != "" {
+		tag = lib[len(lib)-1:]
+	}
+	return &ctxModel{lib: lib, marker: marker, tag: tag, vals: map[string]string{}, path: []string{lib, "/simcwd/common"}, argv: []string{"sim"}, shmDict: map[string]bool{}}
 }
 
 func q(s string) string { return strconv.Quote(s) }
@@ -78,8 +83,16 @@ func (m *ctxModel) importHlp() bool {
 }
 
 func (m *ctxModel) write(loc string, v int) {
-	val := fmt.Sprintf("w%d", v)
+	val := fmt.Sprintf("w%d%s", v, m.tag)
 	switch loc {
+	case "exc.syntax":
+		m.vals[loc] = fmt.Sprintf("(\"f%d%s.py\",%d)", v, m.tag, badLines[v%len(badLines)])
+	case "const.bytes":
+		bt := "x"
+		if m.tag >= "0" && m.tag <= "3" {
+			bt = m.tag
+		}
+		m.vals[loc] = fmt.Sprintf("b'k%d%s'", v, bt)
 	case "sys.path.append":
 		m.path = append(m.path, val)
 	case "sys.path.rebind":
@@ -197,6 +210,16 @@ func (m *ctxModel) read(loc string) string {
 			return q(v)
 		}
 		return q("0123456789")
+	case "const.bytes":
+		if v, ok := m.vals[loc]; ok {
+			return q(v)
+		}
+		return q("b'init'")
+	case "exc.syntax":
+		if v, ok := m.vals[loc]; ok {
+			return v
+		}
+		return "(None,None)"
 	}
 	return "None"
 }
